@@ -633,6 +633,23 @@ def join_during_install(st, world, observe):
     observe("A has left")
 
 
+def double_install(st, world, observe):
+    """A is preempted right after its rename; B starts completely; A goes on"""
+    n = 0
+    while not st.done["A"] and st.pending["A"] != "connect" and not str(st.pending["A"]).startswith("create(") or \
+            st.pending["A"] == "create(private)":
+        if st.pending["A"] == "rename":
+            st.step("A")
+            break
+        st.step("A")
+        n += 1
+        if n > 50:
+            break
+    st.until("B", "leave")
+    st.until("A", "leave")
+    observe("A and B have both started")
+
+
 def sequential(st, world, observe):
     """no overlap of start and stop phases: everything must be fine"""
     st.until("A", "leave")
@@ -724,7 +741,9 @@ def run(tier, seed):
             # outside the regions of the two recorded findings: a participant
             # that fetches the table while nobody installs and that is not the
             # last one to leave
-            api.verify(S.run_contract(False), rep, replay=lambda n, i, nt: witness(sequential, "ABX")())
+            api.verify(S.run_contract(False), rep,
+                       replay=lambda n, i, nt: witness(double_install, "AB")() if "at_most_one_installer" in n
+                       else witness(sequential, "ABX")())
             for region, contract, wit in (
                     ("ParallelEtherCat.run: the last participant leaves (its rmdir of the lock directory succeeds)",
                      S.run_contract(True), witness(leave_race, "AB")),
